@@ -396,4 +396,37 @@ example : (setstateP (V := Nat) (R := Nat) true false 0 (fun _ s => s) (getstate
 example : (setstateP (V := Nat) (R := Nat) false true 0 (fun _ s => s) (getstateP true ⟨[("a", 1)], 7⟩)).dict ≠ [("a", 1)] := by decide
 example : (setstateP (V := Nat) (R := Nat) true true 0 (fun _ s => s) (getstateP false ⟨[("a", 1)], 7⟩)).dict ≠ [("a", 1)] := by decide
 
+
+/-! ### call-history independence of the dataset writer -/
+
+theorem updTable_nil (tbl : CapTable) : updTable tbl [] = tbl := by
+  simp [updTable]
+
+theorem vrpCallsWith_local (tbl : CapTable) : ∀ calls : List (CapTable × Nat),
+    vrpCallsWith true tbl calls = calls.map (fun c => (updTable tbl c.1).lookup c.2)
+  | [] => rfl
+  | (ov, n) :: cs => by simp [vrpCallsWith, vrpCall, vrpCallsWith_local tbl cs]
+
+/-- **vrp_calls_independent**: the capacity `generate_vrp_data` writes is a function of that call's own arguments —
+`lookup vrp_size (override applied to the table)` — whatever calls (with whatever overrides) preceded it in the process
+(obligation on the source: the table the override loop updates is a local of the call) -/
+theorem vrp_calls_independent (calls : List (CapTable × Nat)) :
+    vrpCalls calls = calls.map (fun c => (updTable Params.genDataVrpCapacities c.1).lookup c.2) := by
+  have h : Params.genDataVrpTableLocal = true := by decide
+  simp only [vrpCalls, h]; exact vrpCallsWith_local _ calls
+
+/-- in particular a default call after any history writes the documented table capacity -/
+theorem default_call_after_history (hist : List (CapTable × Nat)) (n : Nat) :
+    (vrpCalls (hist ++ [([], n)])).getLast? = some (Params.genDataVrpCapacities.lookup n) := by
+  rw [vrp_calls_independent]; simp [updTable_nil]
+
+/-- a call leaves the table unchanged -/
+theorem vrpCall_table_unchanged (tbl ov : CapTable) (n : Nat) : (vrpCall true tbl ov n).2 = tbl := rfl
+
+/-- with a shared (module-level) table an override leaks into the next default call — the behaviour the obligation excludes -/
+example : vrpCallsWith false [(20, (30, 1))] [([(20, (60, 1))], 20), ([], 20)] = [some (60, 1), some (60, 1)] := by decide
+example : vrpCallsWith true [(20, (30, 1))] [([(20, (60, 1))], 20), ([], 20)] = [some (60, 1), some (30, 1)] := by decide
+/-- an override for a size that is not a table key is ignored, and such a size cannot be written (`KeyError`) -/
+example : vrpCallsWith true [(20, (30, 1))] [([(21, (60, 1))], 20), ([(21, (60, 1))], 21)] = [some (30, 1), none] := by decide
+
 end Rl4co.Gen.Persist
